@@ -28,7 +28,7 @@ func init() {
 	register(&mon.Spec{
 		ID:    "C15",
 		Level: "exploration",
-		Rule: "hostile request sequences against the real ufs server whose export root sits next to a sentinel tree (sibling directories and files with known names, contents, modes and mtimes, among them a SECRET file): from every depth 0-3 of a small tree every name-carrying field (walk names, create name, wstat rename name) takes each element of the hostile alphabet " +
+		Rule: "hostile request sequences against the real ufs server whose export root sits next to a sentinel tree (sibling directories and files with known names, contents, modes and mtimes, among them a SECRET file): from every depth 0-3 of a small tree every name-carrying field (walk names, create name, wstat rename name, and the tree name of an additional attach) takes each element of the hostile alphabet " +
 			`{"..", ".", "", "a/..", "../x", "../../outside/SECRET", "/etc", "/", "\\", "a\\..\\b", "..\\", "...", "..a", NUL-containing, 300 bytes, 60000 bytes, sentinel names} singly and in lists of 1-16 with '..' chains longer than the depth; remove and rename on the root fid (also of an EMPTIED export); create with DMDIR/DMSYMLINK/DMDEVICE/DMNAMEDPIPE bits; follow-up operations (open, write, truncate, chmod, remove, listing) through every fid obtained, including fids whose entry was renamed with a hostile name. ` +
 			"Two observers: (1) in-process: after every sequence the sentinel tree must equal its snapshot, no Read/Stat/listing may return sentinel content or a sentinel inode, the export root must keep its inode; (2) traced: the same workload is sent over a unix socket to the server running in its own process under strace -f; every path argument of every file-related syscall after the serving marker is cleaned lexically and must be the export root or below it. " +
 			"non-trivial = the request carries a hostile name; distinct by (field, name class, depth, follow-up)",
@@ -40,7 +40,7 @@ func init() {
 		Shards:   shards(8, 16),
 		Timeout:  timeouts(4*time.Minute, 40*time.Minute),
 		MinEvals: 200,
-		Required: []string{"field:walk", "field:create", "field:rename", "root:remove", "root:rename", "root:remove-emptied", "sentinel_snapshots_compared", "followups_after_hostile_rename", "requests_refused", "requests_accepted", "vanished_cwd_probes"},
+		Required: []string{"field:walk", "field:create", "field:rename", "field:attach", "root:remove", "root:rename", "root:remove-emptied", "sentinel_snapshots_compared", "followups_after_hostile_rename", "requests_refused", "requests_accepted", "vanished_cwd_probes"},
 		Run:      runC15,
 	})
 }
@@ -261,7 +261,44 @@ func (d *c15driver) run(seqNo int) {
 		hn = strings.Repeat("H", 60000)
 	}
 	key := ""
-	switch field := r.Intn(10); {
+	switch field := r.Intn(11); {
+	case field == 10: // attach with a hostile tree name
+		an := hn
+		if r.Intn(2) == 0 {
+			an = []string{"..", "../..", "../outside", "/..", "a/../..", "../exportX", "a/b/../../..", "/../outside/dir", "..//", "a/..", "/"}[r.Intn(11)]
+		}
+		nf := d.fid()
+		_, err := d.sess.Attach(ctx, nf, p9p.NOFID, "u", an)
+		d.trace = append(d.trace, fmt.Sprintf("Attach(aname=%.80q) err=%v", an, err))
+		d.w.Count("field:attach", 1)
+		if err == nil {
+			d.w.Count("requests_accepted", 1)
+			what := fmt.Sprintf("root fid of Attach(aname=%.60q)", an)
+			// read-only follow-ups: whatever tree the attach selected must lie inside the export
+			if st, err := d.sess.Stat(ctx, nf); err == nil && !d.traced {
+				inside := map[uint64]bool{}
+				filepath.Walk(d.env.root, func(p string, info os.FileInfo, err error) error {
+					if err == nil {
+						inside[info.Sys().(*syscall.Stat_t).Ino] = true
+					}
+					return nil
+				})
+				if !inside[st.Qid.Path] {
+					d.bad("attach-root-outside-export", "%s: the attach root has inode %d, which belongs to no object inside the export", what, st.Qid.Path)
+					return
+				}
+			}
+			d.probe(nf, what)
+			g := d.fid()
+			if qs, err := d.sess.Walk(ctx, nf, g, "SECRET"); err == nil && len(qs) == 1 {
+				d.probe(g, what+" then Walk(SECRET)")
+				d.sess.Clunk(ctx, g)
+			}
+			d.sess.Clunk(ctx, nf)
+		} else {
+			d.w.Count("requests_refused", 1)
+		}
+		key = fmt.Sprintf("attach/%s", nameClass(an))
 	case field < 4: // walk names
 		var names []string
 		switch r.Intn(4) {
